@@ -28,3 +28,61 @@ _sp.loader.exec_module(_kc)
 K('C04.b', property='C04', engine='symex', harness='C10/kcalc.cpp', entries=_kc._KC_ENTRIES, tus=_kc._KC_TUS,
   bounds=_kc._KC_BOUNDS, timeout_ms={'quick': 60000, 'thorough': 600000}, validate={'quick': 4, 'thorough': 20},
   what=_kc._KC_WHAT, out=_kc._KC_OUT, assumptions=_kc._KC_ASSUME, stubs=_kc._KC_STUBS)
+
+# C04.d  block kriging with one discretisation point (zero shift) vs point kriging: covariance part of the right-hand side
+# (raw KrigingSystem set-up and callback tables of harness/C01/ks_common.h; the covariance callbacks are this harness's own)
+_KS_TUS = ['src/Estimation/KrigingSystem.cpp', 'src/Basic/Utilities.cpp', 'src/Basic/VectorHelper.cpp', 'src/Enum/Enums.cpp',
+           'src/Matrix/AMatrix.cpp', 'src/Matrix/AMatrixDense.cpp', 'src/Matrix/AMatrixSquare.cpp', 'src/Matrix/MatrixSquareSymmetric.cpp',
+           'src/Matrix/MatrixRectangular.cpp', 'src/Matrix/MatrixSquareGeneral.cpp', 'src/Basic/AStringable.cpp', 'src/Basic/ASerializable.cpp']
+_SP_TUS = ['src/Space/SpacePoint.cpp', 'src/Space/ASpaceObject.cpp', 'src/Space/ASpace.cpp', 'src/Space/SpaceRN.cpp']
+for _ne, _nv, _nf, _tiers in ((2, 1, 0, ('quick', 'thorough')), (2, 2, 1, ('quick', 'thorough')), (3, 1, 1, ('quick', 'thorough')), (3, 2, 2, ('thorough',))):
+    K('C04.d.%d%d%d' % (_ne, _nv, _nf), property='C04', engine='symex', harness='C04/block.cpp', entry='k_block_point', tus=_KS_TUS + _SP_TUS, tiers=_tiers,
+      defines={'all': {'VF_NECH': _ne, 'VF_NVAR': _nv, 'VF_NFEQ': _nf, 'VF_NDIM': 2, 'VF_NFEX': 0}},
+      bounds={'quick': 'exactly nech=%d neighbourhood samples (arbitrary distinct ranks among %d), nvar=%d variables, nfeq=%d drift equations, ndim=2; target coordinates, covariance tables, '
+                       'target drift values (possibly undefined) and stale contents of the right-hand side arbitrary reals; one discretisation point with shift exactly 0' % (_ne, _ne + 1, _nv, _nf)},
+      timeout_ms={'quick': 120000, 'thorough': 900000}, validate={'quick': 20, 'thorough': 40},
+      what='KrigingSystem::_rhsCalcul with EKrigOpt::BLOCK (_rhsCalculBlock with _getNDisc()==1 and _disc1[0]==0: _getDISC1Vec, SpacePoint::operator=, SpacePoint::move -> ASpace::move -> '
+           'SpaceRN::_move, MatrixSquareGeneral copy / fill / addMatInPlace / copyElements, _rhsStore) against the same call with EKrigOpt::POINT (_rhsCalculPoint, _rhsStore): the covariance '
+           'callback receives identical arguments on both paths (sample rank nbgh[i], flags, target rank, target coordinates, calculation mode, last optimisation target), the right-hand sides '
+           'are equal cell by cell (covariance and drift rows) and equal to cov(sample, target) of the model table; same error code',
+      out='ndisc > 1 and non-zero shifts (a different estimator); the variance term var0 of a block (_variance0: uses the second, randomised discretisation); per-cell discretisation '
+          '(_flagPerCell); matLC; what the covariance callback computes from its arguments (model hierarchy); -0.0 / rounding of x + 0.0 (real reading; IEEE gives x + 0.0 == x for every finite x)',
+      assumptions=['KrigingSystem, Db, Model, ACovAnisoList, ANeigh are raw storage with only the fields read initialised (harness/C01/ks_common.h); _p0/_p1/_p0_memo get a real coordinate vector and '
+                   'share one real SpaceRN(2); _disc1 is a real VectorVectorDouble of one zero vector; _flagPerCell=false, _flagNoMatLC=true',
+                   'covariance value is abstract: one symbolic table for a target point located at the target coordinates, an unrelated symbolic table for any other location',
+                   'the target point is loaded with the target coordinates before the call (Db::getSampleAsSPInPlace is a no-op override)'],
+      stubs=['ACov::evalCovKriging(mat, p1, p0, mode): logs its arguments, writes the symbolic covariance table (target table iff p0 has the target coordinates)',
+             'ACov::optimizationSetTarget(pt): logs the coordinates of pt',
+             'ASpaceObject::operator=: shares the space pointer (the real one deletes and clones an equal space through dynamic_cast)',
+             'ACov::updateCovByPoints (virtual slot of the raw covariance object): no-op', 'Db::getSampleAsSPInPlace: no-op', 'Model::evalDriftValue -> symbolic table T_drift0 (may be TEST)',
+             '__dynamic_cast (solver build only): identity on dense matrices', 'other callbacks of harness/C01/ks_common.h: not reached'])
+
+# C04.e  cross-validation in a unique neighbourhood: read-out of the inverse vs the closed form of the reference note and vs explicit leave-one-out
+_XV_STUBS = ['Db::getSampleNumber: the constant N', 'Db::isActive(rank): symbolic boolean table', 'Db::isIsotopic(rank): Z(rank, 0) is defined (symbolic table T_z, value or TEST)',
+             'Db::getZVariable(rank, 0): symbolic table T_z', 'Db::setArray(target, iuid, value) on the INPUT Db: recorded with a write counter',
+             'CovContext::getMean(0) (behind Model::getMean): symbolic mean', 'other callbacks of harness/C01/ks_common.h: not reached']
+_XV_ASSUME = ['KrigingSystem, Db, Model are raw storage with only the fields read initialised (harness/C01/ks_common.h); _lhsinv is a real MatrixSquareSymmetric(N)',
+              'one variable, no drift (_nfeq=0: simple kriging with a known mean), no Bayesian drift, _flagNoMatLC=true',
+              'exact (real) arithmetic reading of the divisions and of sqrt (r>=0, r*r==x; sqrt of a structurally identical argument is the same number); the native build compares the separately computed quotients up to 1e-9 relative']
+for _n, _tiers in ((2, ('quick', 'thorough')), (3, ('quick', 'thorough')), (4, ('thorough',))):
+    K('C04.e.formula.%d' % _n, property='C04', engine='symex', harness='C04/xvalid.cpp', entry='k_xv_formula', tus=_KS_TUS, tiers=_tiers,
+      defines={'all': {'VF_NECH': _n - 1, 'VF_NVAR': 1, 'VF_NFEQ': 0, 'VF_NDIM': 2, 'VF_NFEX': 0}},
+      bounds={'quick': 'data base of exactly %d samples, every mask pattern, every pattern of undefined values, every target rank; inverse matrix = arbitrary symmetric real matrix with positive diagonal; '
+                       'data, mean arbitrary reals; every combination of the output requests (estimate / error, stdev / standardised error, varZ)' % _n},
+      timeout_ms={'quick': 120000, 'thorough': 900000}, validate={'quick': 30, 'thorough': 60}, validate_doubles='int', symex={'sqrt_memo_sym': True},
+      what='KrigingSystem::_estimateCalculXvalidUnique (+ _getFlagAddress, _getLHSINV, _getMean) against the closed form of doc/references/Kriging_XValid_Unique.md in the simple kriging case: '
+           'Z*_i - Z_i == -(B zc)_i / B_ii and variance == 1 / B_ii, where B is indexed by the position of each sample among the active, defined ones; nothing written for a masked / undefined target; '
+           'each requested output written once; varZ is TEST',
+      out='that _lhsinv is the inverse of the covariance matrix of exactly those samples (assembly: C01; inversion: Eigen); several variables (the code handles variable 0 only); drift (nfeq > 0)',
+      assumptions=_XV_ASSUME, stubs=_XV_STUBS)
+for _n, _tiers in ((2, ('quick', 'thorough')), (3, ('quick', 'thorough'))):
+    K('C04.e.loo.%d' % _n, property='C04', engine='symex', harness='C04/xvalid.cpp', entry='k_xv_loo', tus=_KS_TUS, tiers=_tiers,
+      defines={'all': {'VF_NECH': _n - 1, 'VF_NVAR': 1, 'VF_NFEQ': 0, 'VF_NDIM': 2, 'VF_NFEX': 0}},
+      bounds={'quick': 'exactly %d samples, all active and defined; covariance matrix = arbitrary symmetric real matrix with positive determinant and positive diagonal cofactors (covers every positive '
+                       'definite matrix); data and mean arbitrary reals; every target' % _n},
+      timeout_ms={'quick': 120000, 'thorough': 900000}, validate={'quick': 30, 'thorough': 60}, validate_doubles='int', symex={'sqrt_memo_sym': True},
+      what='KrigingSystem::_estimateCalculXvalidUnique fed with the exact inverse (adjugate / determinant) of a symbolic covariance matrix C, against the definition: leave-one-out simple kriging of '
+           'sample i from the other samples (weights solve C_{-i} lambda = c_{-i,i} by Cramer; Z* = mean + lambda.(z - mean); variance = C_ii - lambda.c_{-i,i}): estimate and stdev equal as '
+           'functions of the entries of C, the data and the mean',
+      out='as C04.e.formula; masked / undefined samples (C04.e.formula); n > 3; floating-point rounding of the inverse',
+      assumptions=_XV_ASSUME, stubs=_XV_STUBS)
